@@ -658,6 +658,72 @@ def _native_mutators(tier="quick", seed=0):
             r["model"] = None
         obls.append(r)
 
+    # "remove" removes ALL children of the kind: where the schema lets a child repeat (and another producer wrote it twice), a remover
+    # that takes the first one only leaves the rest behind.  For every zero-argument remover / clearer: note which kinds of children it
+    # takes away from a real element, duplicate those children (keeping the part free of misplaced children), run it again: none is left
+    rm_prefixes = ("remove_", "_remove_", "clear_", "_clear_", "unclear_")
+    leftovers = {}
+    rm_count = {}
+    for f in [None] + files:
+        prs = Presentation(f) if f else Presentation()
+        label = os.path.basename(f) if f else "default template"
+        for part in prs.part.package.iter_parts():
+            root = getattr(part, "_element", None)
+            if root is None or [m for m in validate_root(root, None) if "not expected" in m]:
+                continue
+            for el in list(root.iter()):
+                if not isinstance(el.tag, str) or not len(el):
+                    continue
+                for k in type(el).__mro__:
+                    if not k.__module__.startswith("pptx.oxml") or k.__name__ in ("BaseOxmlElement", "_OxmlElementBase"):
+                        continue
+                    for n_, f_ in list(k.__dict__.items()):
+                        if not (isinstance(f_, types.FunctionType) and n_.startswith(rm_prefixes)):
+                            continue
+                        if any(p.default is p.empty and p.kind in (p.POSITIONAL_ONLY, p.POSITIONAL_OR_KEYWORD) for p in list(inspect.signature(f_).parameters.values())[1:]):
+                            continue
+                        key = (type(el).__name__, n_)
+                        if rm_count.get(key, 0) >= 2 or ("%s.%s" % (k.__name__, n_)) in leftovers:
+                            continue
+                        idxs, cur = [], el
+                        while cur is not root:
+                            par = cur.getparent()
+                            idxs.append(par.index(cur))
+                            cur = par
+
+                        def locate(r_):
+                            e_ = r_
+                            for i_ in reversed(idxs):
+                                e_ = e_[i_]
+                            return e_
+
+                        r1 = copy.deepcopy(root)
+                        e1 = locate(r1)
+                        tags0 = [c.tag for c in e1 if isinstance(c.tag, str)]
+                        try:
+                            getattr(e1, n_)()
+                        except Exception:
+                            continue
+                        gone = set(tags0) - {c.tag for c in e1 if isinstance(c.tag, str)}
+                        if not gone:
+                            continue
+                        r2 = copy.deepcopy(root)
+                        e2 = locate(r2)
+                        for c in list(e2):
+                            if isinstance(c.tag, str) and c.tag in gone:
+                                c.addnext(copy.deepcopy(c))
+                        if [m for m in validate_root(r2, None) if "not expected" in m]:
+                            continue  # the schema does not let this child repeat here
+                        rm_count[key] = rm_count.get(key, 0) + 1
+                        evals += 1
+                        try:
+                            getattr(e2, n_)()
+                        except Exception:
+                            continue
+                        left = sorted(c.tag.split("}")[-1] for c in e2 if isinstance(c.tag, str) and c.tag in gone)
+                        if left:
+                            leftovers["%s.%s" % (k.__name__, n_)] = "%s, part %s: <%s> holding %s twice (the schema allows it), after %s(): %s left behind" % (
+                                label, part.partname, el.tag.split("}")[-1], sorted(t.split("}")[-1] for t in gone), n_, left)
     # whatever creates a child creates a NEW element: a creator that hands out an element it handed out before moves that element out
     # of its first parent when it is inserted again (an element has one parent), leaving the first parent without the child
     from pptx.oxml import parse_xml as _parse_xml
@@ -699,6 +765,9 @@ def _native_mutators(tier="quick", seed=0):
 
     for sig, wit in sorted(found.items()):
         rec("C10.native.handwritten_mutator_keeps_part_valid[%s]" % sig, wit)
+    for sig, wit in sorted(leftovers.items()):
+        rec("C10.native.remover_removes_every_child_of_the_kind[%s]" % sig, wit)
+    rec("C10.native.removers_remove_every_child_of_the_kind", None if not leftovers else "%d removers leave repeated children behind: %s" % (len(leftovers), sorted(leftovers)))
     rec("C10.native.creators_return_a_new_element_each_time", "called twice, these creators return one and the same element: %s" % sorted(set(shared)) if shared else
         (None if n_creators else "no zero-argument creator found"))
     rec("C10.native.handwritten_mutators_on_real_parts", None if not found else "%d hand-written mutators leave a valid part invalid: %s" % (len(found), sorted(found)))
